@@ -146,12 +146,12 @@ def run(ctx):
                     else:
                         derived.append(show(a))
         stale = check_stale(ck, prog, config, 'C16-d', 'zck_write', ('dc_data_size',))
-        has_cache_test = any(v for v in stale.caches.values())
-        ck.ob('C16-d', 'R4.boundary', zw.name, 'max-test', canonical or bool(stale.caches),
+        max_caches = sorted(n for n, fs in stale.cache_defs.items() if 'chunk_auto_max' in fs)
+        ck.ob('C16-d', 'R4.boundary', zw.name, 'max-test', canonical or bool(max_caches),
               'maximum-size boundary test is dc_data_size + i >= chunk_auto_max (bytes of the chunk so far)'
               if canonical else ('maximum-size boundary is tested through cached locals (%s); their freshness is '
-                                 'decided by R6.stale-cache' % ', '.join(sorted(set(stale.caches.values())))
-                                 if stale.caches else
+                                 'decided by R6.stale-cache' % ', '.join(max_caches)
+                                 if max_caches else
                                  'maximum-size boundary test has the form %s, not dc_data_size + i >= chunk_auto_max'
                                  % derived), zw.file, zw.line, config=config)
         # ---- e ordering fact at comp_init exits
